@@ -17,13 +17,15 @@ ap.add_argument("--checks")
 ap.add_argument("--tier", default="quick")
 ap.add_argument("--seed", default="0")
 ap.add_argument("--skip-confirm", action="store_true")
+ap.add_argument("--wt", default="wt")
+ap.add_argument("--suffix", default="")
 a = ap.parse_args()
 VERIF = os.path.dirname(os.path.dirname(os.path.abspath(__file__)))
-wt = "/tmp/wt_%s" % a.prop
+wt = "/tmp/%s_%s" % (a.wt, a.prop)
 out = os.path.join(wt, "OUT")
 patch = os.path.join(out, "patch%s.diff" % a.k)
 demo = os.path.join(out, "demo%s.py" % a.k)
-dest = os.path.join(VERIF, "seeded", "%s-%s" % (a.prop, a.k))
+dest = os.path.join(VERIF, "seeded", "%s-%s%s" % (a.prop, a.k, a.suffix))
 PY = "/venv/bin/python"
 
 
